@@ -41,6 +41,7 @@ type command struct {
 }
 
 type proxyClient struct {
+	proxyCtx   context.Context
 	id         string
 	conn       RpcReadWriter
 	toServer   chan command
@@ -69,6 +70,7 @@ func (p *Proxy) AddClient(id string, conn RpcReadWriter) {
 	log.Info().Msgf("proxy.AddClient %s", id)
 
 	client := &proxyClient{
+		proxyCtx:   p.ctx,
 		id:         id,
 		conn:       conn,
 		toServer:   p.commands,
@@ -86,6 +88,7 @@ func (p *Proxy) addOutgoingConnectionLocked(id string) *proxyClient {
 	log.Info().Msgf("proxy.addOutgoingConnectionLocked %s", id)
 
 	client := &proxyClient{
+		proxyCtx:   p.ctx,
 		id:         id,
 		toServer:   p.commands,
 		fromServer: make(chan *goatorepo.Rpc, clientBufferSize),
@@ -177,11 +180,20 @@ func (p *Proxy) forwardRpc(source string, rpc *goatorepo.Rpc) {
 	}
 }
 
+// report tells the forwarding loop that this connection failed, unless the
+// proxy is shutting down and nobody is listening any more.
+func (c *proxyClient) report(err error) {
+	select {
+	case c.toServer <- command{id: c.id, err: err}:
+	case <-c.proxyCtx.Done():
+	}
+}
+
 func (c *proxyClient) readLoop(ctx context.Context) error {
 	for {
 		rpc, err := c.conn.Read(ctx)
 		if err != nil {
-			c.toServer <- command{id: c.id, err: err}
+			c.report(err)
 			return errors.Wrap(err, "failed to read from connection")
 		}
 
@@ -200,7 +212,7 @@ func (c *proxyClient) writeLoop(ctx context.Context) error {
 
 			err := c.conn.Write(ctx, rpc)
 			if err != nil {
-				c.toServer <- command{id: c.id, err: err}
+				c.report(err)
 				return errors.Wrap(err, "failed to write to connection")
 			}
 		case <-ctx.Done():
@@ -221,7 +233,7 @@ func (c *proxyClient) connect(ctx context.Context, newConnection NewConnection) 
 
 	c.conn, err = newConnection(c.id)
 	if err != nil {
-		c.toServer <- command{id: c.id, err: err}
+		c.report(err)
 		return
 	}
 
